@@ -15,7 +15,7 @@ from vt.gen import fag, cfgg, rxg, mut
 PROP = 'C12'
 TITLE = 'checkers never accept a wrong answer'
 SHARDS = {'quick': 16, 'thorough': 32}
-TIMEOUT = {'quick': 900, 'thorough': 3600}
+TIMEOUT = {'quick': 420, 'thorough': 3600}
 FAMILIES = ['language_from_words', 'language_from_file', 'accepts_rejects', 'product', 'complement', 'reverse', 'minimal', 'nfa2dfa', 'dfa2regexp',
             'chomsky', 'cyk', 'derivation', 'automata_checker', 'experimental', 'syntax']
 REQUIRED = ['family:' + f for f in FAMILIES] + ['counterexample_words']
